@@ -373,6 +373,34 @@ theorem magic_block_keeps_prev (s s' : State) (h : createMagicBlockForWait s = .
         exact ⟨a.id, List.mem_map.mpr ⟨a, ha, rfl⟩, hav⟩
       · exact reduceShardersList_keeps_prev s shs hsh
 
+/-! ### without the hypothesis `x_percent > 0` (`x_percent` is not range-checked by `GlobalNode.validate`) -/
+
+/-- Publish phase, `x_percent = 0`, `max_n = 1`: candidates are the previous miner 4 (stake 20) and the newcomer 1
+(stake 30); keep list = the previous sharder 100. -/
+def sX0 : State :=
+  { cfg := ⟨1, 1, 1, 4, 0x3fe51eb851eb851f, 0x3fe0000000000000, 0, [1, 1, 1, 1, 3]⟩,
+    round := 5, pn := some ⟨pPublish, 4, 4, 0⟩,
+    miners := [⟨0, 30⟩, ⟨4, 20⟩, ⟨1, 30⟩], sharders := [⟨100, 20⟩, ⟨103, 5⟩],
+    dkg := ⟨[⟨4, 20⟩, ⟨1, 30⟩], 1, 1, 1, 1, [], 1⟩,
+    mpks := some [4, 1], gsos := some [1, 4], keep := [100], mb := none, viewChange := 0, lastRound := 4, gnPrev := none,
+    lfmb := ⟨1, 0, 1, 1, 2, ⟨[4, 5], [4, 5]⟩, ⟨[100], [100]⟩⟩,
+    perms := [[], [0], [1, 0], [2, 0, 1]] }
+
+/-- negation witness for `magic_block_keeps_prev` without `hx`: the produced magic block's only miner is 1, which is
+not in the previous set {4, 5} (`reduceNodes` looks for a previous miner before the reduction only). -/
+theorem magic_block_without_prev_at_x0 :
+    (match createMagicBlockForWait sX0 with
+     | .ok s' => s'.mb.map fun mb => (mb.miners.nodes, mb.miners.nodes.any fun i => sX0.lfmb.miners.vis.contains i)
+     | _ => none) = some ([1], false) := by decide
+
+/-- `x_percent = 0`, `max_s = 1`, keep list = previous sharder 102 (stake 0) and newcomer 105 (stake 10): the reduced
+list is [105]; the repair branch of `reduceShardersList` searches the same list and panics ("must not happen"). -/
+theorem reduceShardersList_panics_at_x0 :
+    (match reduceShardersList { sX0 with cfg := { sX0.cfg with maxS := 1 }, sharders := [⟨102, 0⟩, ⟨105, 10⟩],
+                                         keep := [105, 102], lfmb := { sX0.lfmb with sharders := ⟨[102], [102]⟩ } } with
+     | .panic => true
+     | _ => false) = true := by decide
+
 /-! ### after a view change (information): the machine cannot leave Start any more
 
 `SetMagicBlock` stores in `gn.PrevMagicBlock` a magic block that was read back from the state; its pools have lost
